@@ -220,6 +220,21 @@ func variants(k int) []variant {
 	add("os.stdout", "write", `os.stdout.write("out-VERIFMARK\n")`, `"done"`, "done", L("Stdout()", `File.Write(<stdout>,"out-VERIFMARK\n")`), "stdout:out-VERIFMARK\n")
 	add("os.stderr", "write", `os.stderr.write("err-VERIFMARK\n")`, `"done"`, "done", L("Stderr()", `File.Write(<stderr>,"err-VERIFMARK\n")`), "stderr:err-VERIFMARK\n")
 
+	// the same three streams reached without the attribute access os.<stream>: bound by a from-import, fetched with
+	// getattr, taken from the module after it was bound to another name. Whether such a handle works at all is not
+	// the question (today it is an unresolved attribute and the write is refused); when it works it is the supplied
+	// OS that serves it - the real streams are watched by the worker whatever the script answers
+	for _, st := range []struct{ id, get, use string }{
+		{"from-import", "from os import stdout", `stdout.write("fi-VERIFMARK\n")`},
+		{"from-import-stderr", "from os import stderr", `stderr.write("fie-VERIFMARK\n")`},
+		{"from-import-stdin", "from os import stdin", `stdin.read()`},
+		{"getattr", `so := getattr(os, "stdout")`, `so.write("ga-VERIFMARK\n")`},
+		{"getattr-stdin", `si := getattr(os, "stdin")`, `si.read()`},
+		{"module-alias", "import os as vos", `vos.stdout.write("al-VERIFMARK\n")`},
+	} {
+		add("os.stdout", "handle-"+st.id, st.get+"\nr := try(func() { "+st.use+"; return \"used\" }, func(e) { return \"refused\" })", "r", "re:^(used|refused|ERR)$", nil)
+	}
+
 	// ------------------------------------------------------------ shell-style builtins not shared with an os function above
 	add("builtin.cat", "abs", "", "cat("+q(fileA)+")", cA, L(fmt.Sprintf("ReadFile(%q)", fileA)))
 	add("builtin.cat", "abs+rel", "", "cat("+q(fileA)+", "+q(relF)+")", cA+cRel, L(fmt.Sprintf("ReadFile(%q)", fileA), fmt.Sprintf("ReadFile(%q)", relF)))
